@@ -44,6 +44,7 @@ type hsResult struct {
 // Handshake runs the REAL p2p.NewHandshake on both ends of a fresh duplex.
 func Handshake(idA, idB crypto.PrivateKeyI, metaA, metaB *lib.PeerMeta) (a, b hsResult, ab, ba *Pipe) {
 	ca, cb, ab, ba := NewDuplex("A", "B")
+	ab.Record, ba.Record = true, true
 	var wg sync.WaitGroup
 	wg.Add(2)
 	go func() { defer wg.Done(); a.c, a.e = p2p.NewHandshake(ca, metaA, idA) }()
@@ -80,7 +81,9 @@ type stream struct {
 	a, b    *p2p.EncryptedConn
 	raw     *Raw // when the sender is hand-driven (malformed frames by a key holder)
 	wire    *Pipe
-	rev     *Pipe // the opposite direction
+	rev     *Pipe       // the opposite direction
+	hs      [2][][]byte // ciphertext frames recorded during the encrypted part of the handshake: [0] this direction, [1] the opposite one
+	hsFault bool
 	sizes   []int // chunk size of every honest frame ever written on this direction (independent of the code: min(1024, rest))
 	written []byte
 	got     []byte
@@ -140,7 +143,11 @@ func (s *stream) read(n int) string {
 		s.got = append(s.got, buf[:k]...)
 		// ORACLE (independent of the model): whatever is delivered is a prefix of what was written
 		if !bytes.HasPrefix(s.written, s.got) {
-			s.o.Fail("C17:delivered-not-prefix-of-written", fmt.Sprintf("after %d delivered bytes the stream is no longer a prefix of the %d written", len(s.got), len(s.written)), s.ops)
+			sig := "C17:delivered-not-prefix-of-written"
+			if s.hsFault {
+				sig = "C17:handshake-frame-replayed-as-data"
+			}
+			s.o.Fail(sig, fmt.Sprintf("after %d delivered bytes the stream is no longer a prefix of the %d written", len(s.got), len(s.written)), s.ops)
 		}
 	}
 	s.op(fmt.Sprintf("r %d", n), res)
@@ -251,6 +258,18 @@ func (s *stream) closeWire() {
 	s.fault("close", func(p *Pipe) bool { p.Closed = true; return true })
 }
 
+// replayHs splices a frame recorded during the HANDSHAKE of this connection into the data phase.
+func (s *stream) replayHs(dir, i, j int) {
+	s.hsFault = true
+	s.fault(fmt.Sprintf("replay-hs %d %d %d", dir, i, j), func(p *Pipe) bool {
+		if i >= len(s.hs[dir]) || j > len(p.Items) {
+			return false
+		}
+		p.Items = insertAt(p.Items, j, s.hs[dir][i])
+		return true
+	})
+}
+
 // otherKey splices in a frame of the OPPOSITE direction of the same session (sealed under the other key).
 func (s *stream) otherKey(i int, frame []byte) {
 	s.fault(fmt.Sprintf("other-key %d", i), func(p *Pipe) bool {
@@ -296,9 +315,21 @@ func newStream(o *drv.Out) *stream {
 	if a.e != nil || b.e != nil {
 		panic(fmt.Sprintf("honest handshake failed: %v %v", a.e, b.e))
 	}
-	ab.With(func(p *Pipe) { p.NonBlock, p.Record = true, true })
-	ba.With(func(p *Pipe) { p.NonBlock, p.Record = true, true })
-	return &stream{o: o, a: a.c, b: b.c, wire: ab, rev: ba}
+	s := &stream{o: o, a: a.c, b: b.c, wire: ab, rev: ba}
+	// what an on-path observer recorded during the handshake: item 0 of each direction is the clear-text
+	// ephemeral key, the rest are the sealed signature and meta frames
+	for d, p := range []*Pipe{ab, ba} {
+		p.With(func(p *Pipe) {
+			for _, it := range p.Hist {
+				if len(it) == crypto.EncryptedFrameSize {
+					s.hs[d] = append(s.hs[d], it)
+				}
+			}
+			p.Hist = nil
+			p.NonBlock = true
+		})
+	}
+	return s
 }
 
 // newRawStream: B is the real EncryptedConn (after a real handshake), the sender is the hand-driven
@@ -347,6 +378,7 @@ func Run(o *drv.Out) {
 	gridCases(o)
 	randomStreams(o)
 	faultCases(o)
+	handshakeReplayCases(o)
 	rawFrameCases(o)
 	handshakeCases(o)
 }
@@ -604,6 +636,60 @@ func faultCases(o *drv.Out) {
 		}
 		s.finish(false)
 		o.Nontrivial(fmt.Sprintf("faults %s %d", desc, len(s.written)))
+	}
+}
+
+// handshakeReplayCases: the on-path attacker recorded the sealed signature / meta frames of the
+// handshake (both directions) and splices one of them into the session: at session positions 0, 1, 2, 3
+// of a fresh session (so that frame #i also lands on ITS OWN index i) and behind already consumed
+// frames. Every such frame must be a read error; nothing but session bytes may be delivered.
+func handshakeReplayCases(o *drv.Out) {
+	o.Case("hs-frames-recorded")
+	probe := newStream(o)
+	o.Op("const handshakeFrames", fmt.Sprint(len(probe.hs[0])))
+	if len(probe.hs[0]) != len(probe.hs[1]) {
+		o.Fail("C17:handshake-frame-count-asymmetric", fmt.Sprint(len(probe.hs[0]), len(probe.hs[1])), nil)
+	}
+	for dir := 0; dir < 2; dir++ {
+		for i := 0; i < len(probe.hs[dir]); i++ {
+			for _, consumed := range []int{0, 1, 2} {
+				for j := 0; j <= 3; j++ {
+					name := fmt.Sprintf("hsreplay-d%d-f%d-after%d-at%d", dir, i, consumed, j)
+					o.Case(name)
+					s := newStream(o)
+					for c := 0; c < consumed; c++ {
+						s.write(90+c, 9+c)
+						s.read(64)
+					}
+					s.write(1, 10)
+					s.write(2, 1024)
+					s.write(3, 7)
+					var want [][]byte
+					s.wire.With(func(p *Pipe) { want = append([][]byte(nil), p.Items...) })
+					before := len(s.sizes) - len(want)
+					s.replayHs(dir, i, j)
+					expect := 0
+					for _, sz := range s.sizes[:before+j] {
+						expect += sz
+					}
+					s.drain([]int{pick(o, readSizes), 2048}, 4000)
+					if len(s.got) != expect {
+						o.Fail("C17:handshake-frame-replayed-as-data", fmt.Sprintf("%s: %d session bytes precede the replayed frame, %d delivered before the first error", name, expect, len(s.got)), s.ops)
+					}
+					if !s.errored {
+						o.Fail("C17:handshake-frame-replayed-as-data", name+": the replayed handshake frame caused no read error", s.ops)
+					}
+					for k := 0; k < 5; k++ {
+						s.read(2048) // a caller that reads on must still only ever see session bytes (checked in read)
+					}
+					o.Count("fault:replay-hs-position")
+					o.Nontrivial("hsreplay " + name)
+					if dir == 0 && i == 0 && consumed == 0 && j == 0 {
+						o.Sample(name + ": " + strings.Join(s.ops, "; "))
+					}
+				}
+			}
+		}
 	}
 }
 
